@@ -28,6 +28,70 @@ func (c *Ctx) poolCall(call *ast.CallExpr) (op string, kind int64, ok bool) {
 	return sel.Sel.Name, k, true
 }
 
+// releaseHelper describes a function whose whole job is to wipe a node and hand it back to its pool
+// (n.clear(); pool[kind].Put(n)): node is the index of the parameter holding the node (-2 the
+// receiver), kindParam the index of a parameter carrying the pool index (-1 if the helper names
+// the pool itself, then kind is that constant).
+type releaseHelper struct {
+	node      int
+	kindParam int
+	kind      int64
+	cleared   bool
+}
+
+func (c *Ctx) releaseHelperOf(u *FuncUnit) *releaseHelper {
+	if u == nil || u.Body == nil || u.Lit != nil || len(u.Body.List) == 0 || len(u.Body.List) > 3 {
+		return nil
+	}
+	info := c.m.Info
+	for i, st := range u.Body.List {
+		es, ok := st.(*ast.ExprStmt)
+		if !ok {
+			continue
+		}
+		call, ok := es.X.(*ast.CallExpr)
+		if !ok {
+			continue
+		}
+		op, kind, isPool := c.poolCall(call)
+		if !isPool || op != "Put" || len(call.Args) != 1 {
+			continue
+		}
+		id, ok := ast.Unparen(call.Args[0]).(*ast.Ident)
+		if !ok {
+			return nil
+		}
+		rh := &releaseHelper{node: c.m.paramIndex(u, id), kindParam: -1, kind: kind}
+		if rh.node == -1 {
+			return nil
+		}
+		if kind == -1 {
+			// pool[kindParam]
+			if sel, ok := ast.Unparen(call.Fun).(*ast.SelectorExpr); ok {
+				if ix, ok := ast.Unparen(sel.X).(*ast.IndexExpr); ok {
+					if kid, ok := ast.Unparen(ix.Index).(*ast.Ident); ok {
+						rh.kindParam = c.m.paramIndex(u, kid)
+					}
+				}
+			}
+			if rh.kindParam < 0 {
+				return nil
+			}
+		}
+		if i > 0 {
+			if pes, ok := u.Body.List[i-1].(*ast.ExprStmt); ok {
+				if pc, ok := pes.X.(*ast.CallExpr); ok {
+					if ps, ok := pc.Fun.(*ast.SelectorExpr); ok && ps.Sel.Name == "clear" && info.ObjectOf(identOf(ps.X)) == info.ObjectOf(id) {
+						rh.cleared = true
+					}
+				}
+			}
+		}
+		return rh
+	}
+	return nil
+}
+
 // R21 HDRCOPY, R22 CAPACITY, R23 NODEWRITERS, R24 POOL, R25 TREESTATE, R30 GLOBALS.
 func ruleNodeLayer(c *Ctx) {
 	info := c.m.Info
@@ -67,20 +131,41 @@ func ruleNodeLayer(c *Ctx) {
 						continue
 					}
 					op, kind, isPool := c.poolCall(call)
-					if !isPool || op != "Put" || len(call.Args) != 1 {
+					var released ast.Expr
+					inHelper := c.releaseHelperOf(u) != nil // the Put of a release helper: judged at its call sites
+					viaHelper := false
+					helperCleared := false
+					if isPool && op == "Put" && len(call.Args) == 1 {
+						released = call.Args[0]
+					} else if rh := c.releaseHelperOf(m.calleeUnit(call)); rh != nil {
+						released = argFor(call, rh.node)
+						kind = rh.kind
+						if rh.kindParam >= 0 {
+							kind = -1
+							if ka := argFor(call, rh.kindParam); ka != nil {
+								if tv, has := info.Types[ka]; has && tv.Value != nil {
+									kind, _ = constant.Int64Val(tv.Value)
+								}
+							}
+						}
+						viaHelper, helperCleared = true, rh.cleared
+					}
+					if released == nil {
 						continue
 					}
 					nPut++
-					xv := identVar(info, call.Args[0])
+					xv := identVar(info, released)
 					props := []string{"C12", "C16", "C17"}
-					base := fmt.Sprintf("%s Put(%s)", u.Name, types.ExprString(call.Args[0]))
+					base := fmt.Sprintf("%s Put(%s)", u.Name, types.ExprString(released))
 					if xv == nil {
 						c.r.undecided("R24", base, m.pos(call.Pos()), "released object is not a plain variable", props...)
 						continue
 					}
 					// (b) kind ↔ type
 					ki := m.kindByStruct(xv.Type())
-					if ki != nil && ki.Value == kind {
+					if inHelper && (ki == nil || kind == -1) {
+						c.r.ok("R24", base+" kind matches pool", m.pos(call.Pos()), "generic release helper: the pool index is checked against the node type at each of its call sites", props...)
+					} else if ki != nil && ki.Value == kind {
 						c.r.ok("R24", base+" kind matches pool", m.pos(call.Pos()), ki.Name, props...)
 					} else {
 						c.r.bad("R24", base+" kind matches pool", m.pos(call.Pos()), fmt.Sprintf("a %s is put into pool %d", types.TypeString(xv.Type(), nil), kind), props...)
@@ -103,6 +188,9 @@ func ruleNodeLayer(c *Ctx) {
 								}
 							}
 						}
+					}
+					if viaHelper && helperCleared {
+						cleared = true
 					}
 					if cleared {
 						c.r.ok("R24", base+" cleared immediately before release", m.pos(call.Pos()), "x.clear() is the preceding statement", props...)
@@ -133,7 +221,9 @@ func ruleNodeLayer(c *Ctx) {
 							}
 						}
 					}
-					if relinked {
+					if inHelper {
+						c.r.ok("R24", base+" released after the slot is relinked", m.pos(call.Pos()), "release helper: the relink is required at each of its call sites", append(props, "C11")...)
+					} else if relinked {
 						c.r.ok("R24", base+" released after the slot is relinked", m.pos(call.Pos()), "*ref = … precedes the release", append(props, "C11")...)
 					} else {
 						c.r.bad("R24", base+" released after the slot is relinked", m.pos(call.Pos()), "the node is released while the tree's slot may still reference it", append(props, "C11")...)
